@@ -671,6 +671,21 @@ def replay(ctx, obj):
                 o["vals"][0], g["rho"], o["vals"][1], o["vals"][2]))
         except ValueError as e:
             print("   oracle: no such ray:", e)
+    # the generated Coq model (run as floats) at the reported launch angles
+    if paths:
+        try:
+            fp, tp = endpoints(g)
+            pre = "sPath" if obj["tracer"] == "SpecializedRayTracer" else "bPath"
+            cases = []
+            for p in paths:
+                mp = mk_path(fp, tp, float(p.theta0), icep, obj["dz"], bool(p.direct))
+                cases += ["pr (M.%s_path_length %s)" % (pre, mp), "pr (M.%s_tof %s)" % (pre, mp), "pr (M.%s_beta %s)" % (pre, mp)]
+            res = run_model(ctx, ["SPath_path_length", "SPath_tof", "SPath_beta", "BPath_path_length", "BPath_tof", "BPath_beta"], cases, "replay")
+            for i, p in enumerate(paths):
+                print(" model (Gen_ray.v as floats) solution %d at theta0=%r: path_length=%r tof=%r beta=%r" % (
+                    i, float(p.theta0), res[3 * i][0], res[3 * i + 1][0], res[3 * i + 2][0]))
+        except Exception as e:  # noqa
+            print(" model: could not be run (%s)" % (repr(e)[:300],))
     fails = judge(ctx, obj["tracer"], obj["dz"], icep, g, paths or [], tr, stats)
     for k, w in fails:
         print(" FAIL", k, w)
